@@ -472,6 +472,45 @@ except Exception as e:
     return dict(reproduced=bool(violated), violated=violated, observed=observed)
 
 
+def tuple_refcount_case(case):
+    """C18 / C01: Tuple(...) validation is reference neutral and stores a tuple of the declared shape, for the four
+    combinations of (item coerced or not) x (item with or without its own validator)."""
+    from traits.api import HasTraits, Tuple, Float, Any, Int, TraitError
+    violated = []
+
+    class P:
+        pass
+
+    class A(HasTraits):
+        t = Tuple(Float, Any)
+        u = Tuple(Float, Any, Int)
+        v = Tuple(Any, Float)
+    payload = P()
+    spare = [payload] * 32            # keeps the object alive whatever the validator does to its count
+    for name, value, ok in (("t", (1, payload), True), ("t", (2.5, payload), True), ("u", (1, payload, "no int"), False),
+                            ("u", (1, payload, 3), True), ("v", (payload, 1), True)):
+        a = A()
+        r0 = sys.getrefcount(payload)
+        try:
+            setattr(a, name, value)
+            accepted = True
+        except TraitError:
+            accepted = False
+        if accepted != ok:
+            violated.append("%s = %r: accepted=%r, expected %r" % (name, value, accepted, ok))
+        if accepted:
+            stored = getattr(a, name)
+            if len(stored) != len(value) or stored[value.index(payload)] is not payload:
+                violated.append("%s = %r stored %r" % (name, value, stored))
+            del stored
+        del a
+        delta = sys.getrefcount(payload) - r0
+        if delta != 0:
+            violated.append("%s = %r (%s): reference count of the validator-less item is off by %+d afterwards"
+                            % (name, value, "accepted" if accepted else "rejected", delta))
+    return dict(reproduced=bool(violated), violated=violated)
+
+
 def main():
     case = json.loads(sys.stdin.read())
     out = {"float_range": float_range_case, "ctrait_state": ctrait_state_case,
@@ -480,7 +519,7 @@ def main():
            "string_state": string_state_case, "getset_delete": getset_delete_case,
            "set_validate_gate": set_validate_gate_case,
            "compound_pending_exception": compound_pending_exception_case,
-           "setstate": setstate_case}[case["family"]](case)
+           "setstate": setstate_case, "tuple_refcount": tuple_refcount_case}[case["family"]](case)
     print(json.dumps(out, default=repr))
 
 
